@@ -367,8 +367,9 @@ class SuperSpeedStreamInEndpoint(Elaboratable):
             # received it correctly. We'll wait to see if the host ACKs.
             with m.State("WAIT_FOR_ACK"):
 
-                # We're done transmitting data.
-                m.d.ss   += out_stream.valid.eq(0)
+                # We're done transmitting data once our transmitter has taken our final word.
+                with m.If(out_stream.ready):
+                    m.d.ss   += out_stream.valid.eq(0)
 
                 # Reset our send-position for the next data packet.
                 m.d.ss   += send_position   .eq(0)
@@ -376,7 +377,8 @@ class SuperSpeedStreamInEndpoint(Elaboratable):
 
                 # In USB3, an ACK handshake can act as an ACK, an error indicator, and/or an IN token.
                 # This helps to maximize bus bandwidth, but means we have to handle each case carefully.
-                with m.If(ack_received):
+                # (The host can't respond to a packet we haven't finished sending.)
+                with m.If(ack_received & ~out_stream.valid.any()):
 
                     # Figure out how the sequence advertisement in our ACK relates to our current sequence number.
                     sequence_advancing = (handshakes_in.next_sequence == next_sequence_number)
